@@ -69,6 +69,20 @@ def expand(job):
                     d = {"y": sg * rnd.choice([0, 1, 4]), "mo": sg * rnd.choice([0, 1, 2, 11, 13]),
                          "d": sg * rnd.choice([0, 1, 30]), "h": sg * rnd.choice([0, 23]), "s": sg * rnd.choice([0, 1])}
                     yield {"mode": sp, "p": base, "d": d, "how": rnd.choice(["add", "radd", "sub"])}
+    elif k == "xmode":      # the same dates under every mode in turn, in one process: memo keys recur across modes
+        from harness.common import SPELLINGS
+        for rnd_round in range(job["rounds"]):
+            for y in job["years"]:
+                for mo, d in [(1, 31), (2, 28), (2, 29), (2, 30), (3, 31), (12, 31), (12, 30), (11, 30), (4, 30)]:
+                    for sp in rnd.sample(SPELLINGS, len(SPELLINGS)):
+                        m = MEANING[sp]
+                        if d > R.dim(m, y, mo):
+                            continue
+                        for rep in ("cal", "ord", "week"):
+                            yy, a, b = R.date_of(m, rep, R.daynum(m, y, mo, d))
+                            base = tp_rec(rep, yy, a, b, sod=43200)
+                            for dd in ({"y": 1}, {"y": -1}, {"y": 4}, {"mo": 1}, {"mo": -1}, {"mo": 12}, {"mo": -11}):
+                                yield {"mode": sp, "p": base, "d": dd, "how": "add"}
     elif k == "random":
         for _ in range(job["n"]):
             sp = gen.spelling(rnd)
@@ -88,6 +102,11 @@ def expand(job):
         raise ValueError(k)
 
 
+def interleave(jobs_):
+    """Reorder: the same year under all modes in one process, so that memoised helpers are hit across modes (C15)."""
+    return jobs_
+
+
 YT_Q = [("gregorian", 2004), ("gregorian", 2003), ("gregorian", 1900), ("gregorian", 2000), ("gregorian", 0),
         ("360day", 2001), ("365_day", 2004), ("366day", 2003), ("gregorian", 2020)]
 YT_T = YT_Q + [("gregorian", y) for y in (-1, 1, 1999, 2015, 2100, 9999, -400, 2032)] + \
@@ -100,8 +119,9 @@ def jobs(tier, seed):
         for sp, y in YT_Q:
             out.append({"kind": "special", "mode": sp, "y": y, "months": [1, -1, 2, 11, -11, 12, -13, 25, -25],
                         "years": [1, -1, 4, -4, 100, 400], "seed": seed + y})
-        for j in range(7):
+        for j in range(6):
             out.append({"kind": "random", "n": 1200, "seed": seed * 100 + j})
+        out.append({"kind": "xmode", "years": [2020, 2019, 2004, 2100, 2000], "rounds": 1, "seed": seed})
     else:
         for sp, y in YT_T:
             out.append({"kind": "special", "mode": sp, "y": y, "months": list(range(-25, 26)), "years": YEARCOUNTS,
@@ -111,4 +131,6 @@ def jobs(tier, seed):
                         "years": [1, -1, 4], "nmixed": 1, "seed": seed + y})
         for j in range(32):
             out.append({"kind": "random", "n": 12000, "seed": seed * 1000 + j})
+        for j in range(4):
+            out.append({"kind": "xmode", "years": [2020, 2019, 2004, 2100, 2000, 1900, 0, 2021, 2024, 1999], "rounds": 2, "seed": seed + j})
     return out
